@@ -86,6 +86,15 @@ def gen(seed, idx, tier):
             sid = sess.get((p, ch), 0) + 1
             sess[(p, ch)] = sid
             b.sd(p, ch, entries, sess=[True, sid])
+        elif k < 0.73:
+            # a FindService answer is pending for this peer when the instance stops (its collector is flushed); what the
+            # peer subscribes to afterwards must still be answered
+            ins = INSTANCES[r.choice([0, 1])]
+            b.sd(p, "u", [["find", ins["svc"], 0xFFFF, 0xFF, 0xFFFFFFFF, 3]])
+            b.t = round(b.last_t + r.choice([0.0005, 0.002, 0.01]), 9)
+            b.call(r.choice(["stop_announce", "ann_stop"]), [INSTANCES.index(ins)] if True else [])
+            if b.ops[-1]["f"] == "ann_stop":
+                b.ops[-1]["a"] = []
         elif k < 0.78:
             b.call("reject", [r.randrange(3), r.random() < 0.6])
         elif k < 0.84:
